@@ -242,4 +242,291 @@ theorem moveEntity_keeps_store : Obl.moveEntity_keeps .store := by
     have ok' : StoreOk w' := world_storeOk_move hw.1.storeOk hr
     exact ⟨ok'.congr rfl rfl, moveEntity_ok_cap hw.1.store.cap hr⟩
 
+/-! ## G2, the rest of sections A and B (worker 2)
+
+Helpers live in the namespace `Evenio.InvV2`; the obligations are proved under the names `Evenio.<piece>_keeps_store`. -/
+
+namespace InvV2
+
+/-- the per-archetype part of the storage invariant -/
+structure ArchStoreOK (i : Nat) (a : Arch) : Prop where
+  index : a.index = i
+  cols_len : a.cols.length = a.comps.length
+  col_len : ∀ col ∈ a.cols, col.length = a.ids.length
+  sorted : a.comps.Pairwise (· < ·)
+  cap : a.ids.length ≤ a.cap
+
+/-- **the storage group without the abstraction function**: every archetype is well shaped, the entity slot map is
+    well formed, and locations and rows are in bijection -/
+theorem storeInv_iff {A : Slab Arch} {E : SlotMap Loc} :
+    StoreInv' A E ↔
+      (∀ i a, A.get i = some a → ArchStoreOK i a) ∧ E.WF ∧
+      ∀ e l, E.get e = some l ↔ ∃ a, A.get l.arch = some a ∧ a.ids[l.row]? = some e := by
+  constructor
+  · rintro ⟨ok, cap⟩
+    refine ⟨fun i a hia => ?_, ok.ents, fun e l => ?_⟩
+    · have hA : (absStore (storeWorld A E)).archs[i]? = some (absArch a) := absStore_arch_of_get hia
+      have hwf := ok.wf.arch _ (List.mem_of_getElem? hA)
+      exact ⟨ok.idx i a hia, hwf.cols_len, hwf.col_len, hwf.sorted, cap i a hia⟩
+    · have hE : E.WF := ok.ents
+      rw [← SlotMap.mem_toList_iff hE]
+      refine (ok.wf.bij e l).trans ?_
+      unfold Store.rowId
+      constructor
+      · intro hr
+        cases hA : (absStore (storeWorld A E)).archs[l.arch]? with
+        | none => rw [hA] at hr; cases hr
+        | some B =>
+          rw [hA] at hr
+          rcases absStore_arch_cases hA with ⟨a, ha, rfl⟩ | ⟨-, rfl⟩
+          · exact ⟨a, ha, hr⟩
+          · simp at hr
+      · rintro ⟨a, ha, hr⟩
+        have hA : (absStore (storeWorld A E)).archs[l.arch]? = some (absArch a) := absStore_arch_of_get ha
+        rw [hA]; exact hr
+  · rintro ⟨harch, hE, hbij⟩
+    refine ⟨⟨fun i a hia => (harch i a hia).index, hE, ?_, SlotMap.toList_keys_nodup _, fun e l => ?_⟩,
+      fun i a hia => (harch i a hia).cap⟩
+    · intro B hB
+      obtain ⟨i, hi⟩ := List.getElem?_of_mem hB
+      rcases absStore_arch_cases hi with ⟨a, ha, rfl⟩ | ⟨-, rfl⟩
+      · have := harch i a ha
+        exact ⟨this.cols_len, this.col_len, this.sorted⟩
+      · exact ⟨rfl, by simp, by simp⟩
+    · show (e, l) ∈ E.toList ↔ _
+      rw [SlotMap.mem_toList_iff hE, hbij]
+      unfold Store.rowId
+      constructor
+      · rintro ⟨a, ha, hr⟩
+        have hA : (absStore (storeWorld A E)).archs[l.arch]? = some (absArch a) := absStore_arch_of_get ha
+        rw [hA]; exact hr
+      · intro hr
+        cases hA : (absStore (storeWorld A E)).archs[l.arch]? with
+        | none => rw [hA] at hr; cases hr
+        | some B =>
+          rw [hA] at hr
+          rcases absStore_arch_cases hA with ⟨a, ha, rfl⟩ | ⟨-, rfl⟩
+          · exact ⟨a, ha, hr⟩
+          · simp at hr
+
+/-- **congruence**: the archetypes of `A'` are well shaped and `A'` has the same non-empty id lists as `A` -/
+theorem storeInv_congr {A A' : Slab Arch} {E : SlotMap Loc} (h : StoreInv' A E)
+    (hok : ∀ i a', A'.get i = some a' → ArchStoreOK i a')
+    (h1 : ∀ i a', A'.get i = some a' → a'.ids = [] ∨ ∃ a, A.get i = some a ∧ a.ids = a'.ids)
+    (h2 : ∀ i a, A.get i = some a → a.ids = [] ∨ ∃ a', A'.get i = some a' ∧ a'.ids = a.ids) :
+    StoreInv' A' E := by
+  obtain ⟨-, hE, hbij⟩ := storeInv_iff.1 h
+  refine storeInv_iff.2 ⟨hok, hE, fun e l => (hbij e l).trans ⟨?_, ?_⟩⟩
+  · rintro ⟨a, ha, hr⟩
+    rcases h2 _ a ha with h0 | ⟨a', ha', he⟩
+    · rw [h0] at hr; simp at hr
+    · exact ⟨a', ha', by rw [he]; exact hr⟩
+  · rintro ⟨a', ha', hr⟩
+    rcases h1 _ a' ha' with h0 | ⟨a, ha, he⟩
+    · rw [h0] at hr; simp at hr
+    · exact ⟨a, ha, by rw [he]; exact hr⟩
+
+/-- one archetype is overwritten by one with the same ids -/
+theorem storeInv_set {A : Slab Arch} {E : SlotMap Loc} (h : StoreInv' A E) {i : Nat} {a a' : Arch}
+    (ha : A.get i = some a) (hok : ArchStoreOK i a') (hids : a'.ids = a.ids) {j : Nat} (hj : j = i) :
+    StoreInv' (A.set j a') E := by
+  rw [hj]
+  have hall := (storeInv_iff.1 h).1
+  refine storeInv_congr h (fun j b hb => ?_) (fun j b hb => ?_) (fun j b hb => ?_)
+  · rcases Slab.get_set_cases hb with ⟨rfl, rfl, -⟩ | ⟨-, hb'⟩
+    · exact hok
+    · exact hall j b hb'
+  · rcases Slab.get_set_cases hb with ⟨rfl, rfl, -⟩ | ⟨-, hb'⟩
+    · exact .inr ⟨a, ha, hids.symm⟩
+    · exact .inr ⟨b, hb', rfl⟩
+  · by_cases hj : j = i
+    · subst hj
+      rw [ha] at hb; cases hb
+      exact .inr ⟨a', Slab.get_set_same ha a', hids⟩
+    · exact .inr ⟨b, by rw [Slab.get_set_other _ hj]; exact hb, rfl⟩
+
+/-! ### `bumpCell` -/
+
+theorem bumpCell_run {ai row c : Nat} {w w' : World} (h : (bumpCell ai row c).run.run w = (.ok (), w')) :
+    ∃ a i col x, w.archs.get ai = some a ∧ a.cols[i]? = some col ∧ col[row]? = some x ∧
+      w' = { w with archs := w.archs.set a.index { a with cols := a.cols.set i (col.set row { x with v := x.v + 1 }) } } := by
+  unfold bumpCell at h
+  rw [run_bind, run_getArch'] at h
+  cases ha : w.archs.get ai with
+  | none => rw [ha] at h; cases h
+  | some a =>
+    rw [ha] at h
+    dsimp only at h
+    split at h
+    · cases h
+    · next i hi =>
+      split at h
+      · cases h
+      · next col hcol =>
+        split at h
+        · cases h
+        · next x hx =>
+          rw [run_setArch] at h
+          cases h
+          exact ⟨a, i, col, x, rfl, hcol, hx, rfl⟩
+
+theorem noPanic_bumpCell (ai row c : Nat) : NoPanic (bumpCell ai row c) := by
+  unfold bumpCell
+  nopanic
+
+theorem _root_.Evenio.bumpCell_keeps_store : Obl.bumpCell_keeps .store := by
+  intro ai row c
+  refine KeepsG.of_run (fun _ => bumpCell_sl ai row c) fun w hw r w' hr _ => ?_
+  cases r with
+  | error e =>
+    intro hp
+    have := (noPanic_bumpCell ai row c).err trivial hr
+    rw [this] at hp; cases hp
+  | ok u =>
+    obtain ⟨a, i, col, x, ha, hcol, hx, rfl⟩ := bumpCell_run hr
+    have hs : StoreInv' w.archs w.entities := hw.store
+    have hok := (storeInv_iff.1 hs).1 ai a ha
+    show StoreInv' (w.archs.set a.index _) w.entities
+    refine storeInv_set hs ha (a' := { a with cols := a.cols.set i (col.set row { x with v := x.v + 1 }) })
+      ⟨hok.index, ?_, ?_, hok.sorted, hok.cap⟩ rfl hok.index
+    · show (a.cols.set i _).length = _
+      rw [List.length_set]; exact hok.cols_len
+    · intro col' hc'
+      show col'.length = a.ids.length
+      rcases List.mem_or_eq_of_mem_set hc' with hm | rfl
+      · exact hok.col_len _ hm
+      · rw [List.length_set]; exact hok.col_len _ (List.mem_of_getElem? hcol)
+
+/-! ### `removeEntity` -/
+
+
+theorem noPanic_removeEntity (loc : Loc) : NoPanic (removeEntity loc) := by
+  unfold removeEntity
+  nopanic
+
+theorem _root_.Evenio.removeEntity_keeps_store : Obl.removeEntity_keeps .store := by
+  intro loc
+  refine KeepsG.of_run (fun _ => removeEntity_sl loc) fun w hw r w' hr _ => ?_
+  cases r with
+  | error e =>
+    intro hp
+    have := (noPanic_removeEntity loc).err trivial hr
+    rw [this] at hp; cases hp
+  | ok u =>
+    have ok' : StoreOk w' := world_storeOk_remove hw.1.storeOk hr
+    refine ⟨ok'.congr rfl rfl, fun i b hb => ?_⟩
+    obtain ⟨a, cols, dr, id, m⟩ := removeEntity_run hr
+    rw [m.hw] at hb
+    have hb' : (w.archs.set a.index { a with cols := cols, ids := swapRemove a.ids loc.row }).get i = some b := hb
+    rcases Slab.get_set_cases hb' with ⟨-, rfl, -⟩ | ⟨-, hb''⟩
+    · show (swapRemove a.ids loc.row).length ≤ a.cap
+      rw [SparseMap.length_swapRemove]
+      exact Nat.le_trans (Nat.sub_le _ _) (hw.1.store.cap _ _ m.ha)
+    · exact hw.1.store.cap _ _ hb''
+
+/-! ### `spawnAll` -/
+
+
+theorem noPanic_archSpawn (id : Key) : NoPanic (archSpawn id) := by
+  unfold archSpawn
+  nopanic
+  all_goals exact noPanic_modifyGet _
+
+/-- the only panic of the step of `spawnAll` ("capacity") is raised before anything is written -/
+theorem spawnStep_panic_same (w : World) :
+    Hoare (fun w0 => w0 = w) spawnStep (fun _ _ => True) (fun e w' => e.isPanic = true → w' = w) := by
+  unfold spawnStep
+  refine Hoare.get_bind fun w0 h0 => ?_
+  split
+  · exact Hoare.throw fun _ h _ => h
+  · have : ∀ {α : Type} {m : M α}, NoPanic m →
+        Hoare (fun w0 => w0 = w) m (fun _ _ => True) (fun e w' => e.isPanic = true → w' = w) := fun hm =>
+      Hoare.post (Hoare.pre hm fun _ _ => trivial) (fun _ _ _ => trivial)
+        (fun e _ he hp => by rw [he] at hp; cases hp)
+    refine this ?_
+    have := noPanic_archSpawn
+    nopanic
+    exact this _
+
+/-- the invariant of the loop of `spawnAll` -/
+def SpawnI (w : World) : Prop := StoreInv w ∧ (absStore w).HasEmpty
+
+theorem spawnStep_store : Hoare SpawnI spawnStep (fun _ => SpawnI) (PanicOnly SpawnI) := by
+  refine ⟨fun w hw => ?_⟩
+  generalize hr : spawnStep.run.run w = res
+  obtain ⟨(e|u), w'⟩ := res
+  · intro hp
+    have := (spawnStep_panic_same w).err rfl hr hp
+    rw [this]; exact hw
+  · have ok : StoreOk w := hw.1.storeOk rfl rfl
+    obtain ⟨ok', he'⟩ := world_storeOk_spawnStep ok hw.2 hr
+    refine ⟨⟨ok'.congr rfl rfl, fun i b hb => ?_⟩, he'⟩
+    obtain ⟨k, ents1, a0, -, -, ha0, -, -, he⟩ := spawnStep_sim ok.idx ok.ents hr
+    rw [he] at hb
+    have hb' : (w.archs.set a0.index { a0 with ids := a0.ids ++ [k], cap := (a0.reserveOne w.epochCtr).1.cap, epoch := (a0.reserveOne w.epochCtr).1.epoch }).get i = some b := hb
+    rcases Slab.get_set_cases hb' with ⟨-, rfl, -⟩ | ⟨-, hb''⟩
+    · have := reserveOne_keeps_len_le_cap a0 w.epochCtr k (hw.1.cap _ _ ha0)
+      have hids : (a0.reserveOne w.epochCtr).1.ids = a0.ids := by
+        unfold Arch.reserveOne; split <;> rfl
+      simp only [hids] at this
+      exact this
+    · exact hw.1.cap _ _ hb''
+
+theorem spawnAll_store : Hoare SpawnI spawnAll (fun _ => SpawnI) (PanicOnly SpawnI) := by
+  unfold spawnAll
+  refine Hoare.get_bind fun w hw => ?_
+  refine Hoare.bind_inv (Hoare.forIn_range_inv fun _ _ => ?_) fun _ => ?_
+  · refine Hoare.congr_run (m := spawnStep >>= fun _ => pure (ForInStep.yield PUnit.unit))
+      (Hoare.bind_inv spawnStep_store fun _ => Hoare.pure fun _ h => h) fun w0 => ?_
+    unfold spawnStep
+    simp only [run_bind, run_get]
+    cases hins : w0.entities.insertWith (fun _ => Loc.NULL) with
+    | none => rfl
+    | some p =>
+      obtain ⟨k, ents⟩ := p
+      simp only [run_bind, run_set]
+      generalize (archSpawn k).run.run _ = r
+      obtain ⟨(e|loc), w2⟩ := r <;> rfl
+  · exact Hoare.of_keeps_panicOnly (Keeps.modify fun _ h => h)
+
+theorem _root_.Evenio.spawnAll_keeps_store : Obl.spawnAll_keeps .store := by
+  refine KeepsG.of_run (fun _ => spawnAll_sl) fun w hw r w' hr _ => ?_
+  have hI : SpawnI w := ⟨hw.store, hw.1.hasEmpty⟩
+  cases r with
+  | error e => exact fun hp => (spawnAll_store.err hI hr hp).1
+  | ok u => exact (spawnAll_store.ok hI hr).1
+
+end InvV2
+
+/-! ### frames -/
+
+theorem reserve_keeps_store : Obl.reserve_keeps .store :=
+  KeepsG.of_keeps_group (fun _ h => h.store) (fun _ => reserve_sl) (by unfold reserve; keeps)
+
+theorem regGev_keeps_store : Obl.regGev_keeps .store := fun _ _ _ _ hw _ => hw.store
+
+theorem regComp_keeps_store : Obl.regComp_keeps .store := fun _ _ _ _ hw _ => hw.store
+
+theorem regTev_keeps_store : Obl.regTev_keeps .store := by
+  intro w ty kind nd k tevs' hw _ _ _
+  show StoreInv (Step.noteEvent _ kind k)
+  unfold Step.noteEvent
+  repeat' split
+  all_goals exact hw.store
+
+theorem removeEventFinish_keeps_store : Obl.removeEventFinish_keeps .store := by
+  intro ty k
+  have hk : Keeps StoreInv (removeEventFinish ty k) := by unfold removeEventFinish; keeps
+  exact Hoare.post (Hoare.pre (Hoare.of_keeps (E := fun _ => StoreInv) hk fun _ _ h => h) fun _ h => h.1.store)
+    (fun _ _ h => h) (fun _ _ h _ => h)
+
+example : Obl.reserve_keeps .store := reserve_keeps_store
+example : Obl.bumpCell_keeps .store := bumpCell_keeps_store
+example : Obl.spawnAll_keeps .store := spawnAll_keeps_store
+example : Obl.removeEntity_keeps .store := removeEntity_keeps_store
+example : Obl.regGev_keeps .store := regGev_keeps_store
+example : Obl.regComp_keeps .store := regComp_keeps_store
+example : Obl.regTev_keeps .store := regTev_keeps_store
+example : Obl.removeEventFinish_keeps .store := removeEventFinish_keeps_store
+
 end Evenio
